@@ -79,6 +79,10 @@ class Acc:
     def nontriv(self, obj):
         self.nontrivial.add(h64(obj))
 
+    def nontriv_fast(self, obj):
+        """for hashable tuples of ints/bytes/str (PYTHONHASHSEED is pinned by ./check)."""
+        self.nontrivial.add(hash(obj))
+
     def sample(self, obj):
         if len(self.samples) < 3:
             self.samples.append(obj)
